@@ -700,7 +700,7 @@ class Message:
         except ValueError as e:
             raise error.MalformedUrlError from e
 
-        if parsed.fragment:
+        if parsed.fragment or "#" in uri:
             raise error.MalformedUrlError(
                 "Fragment identifiers can not be set on a request URI"
             )
